@@ -442,8 +442,8 @@ def child_command(kind, ntemps):
 
 def cfg_args(cfg):
     a = []
-    if not cfg["full"]:
-        a.append("--height=%s" % cfg.get("height", "10"))
+    if cfg.get("height") or not cfg["full"]:
+        a.append("--height=%s" % (cfg.get("height") or "10"))
     if not cfg["mouse"]:
         a.append("--no-mouse")
     if not cfg["clear"]:
